@@ -500,7 +500,7 @@ def mkPart (st : St) (i : Nat) (d : PartDef) : Option Part :=
       ksigs := (0, kf, km) :: (st.ksigs.reverse.filter fun m => m.1 = i).map fun m => (m.2.1, m.2.2.1, m.2.2.2),
       clefs := ((let c := resolveClef d; (0, c.1, c.2.1, c.2.2.1, c.2.2.2)) ::
                (st.clefs.reverse.filter fun m => m.1 = i).map fun m => (m.2.1, m.2.2.1, m.2.2.2.1, m.2.2.2.2.1, m.2.2.2.2.2)).mergeSort
-                 (fun a b => Kern.lexLe [a.1, (a.2.1 : Rat), (a.2.2.2.1 : Rat)] [b.1, (b.2.1 : Rat), (b.2.2.2.1 : Rat)]) }
+                 (fun a b => Kern.lexLe (Kern.clefKey a) (Kern.clefKey b)) }
 
 def denote (evs : List Ev) : Option (List Part) :=
   match runEvs {} evs with
